@@ -75,30 +75,40 @@ def insertSorted (kv : String × Value) : List (String × Value) → List (Strin
 
 def sortKeys (kvs : List (String × Value)) : List (String × Value) := kvs.foldl (fun acc kv => insertSorted kv acc) []
 
-def valueJson (w : World) : Nat → Value → String
-  | 0, _ => "null"
-  | fuel+1, v =>
+/-- `value_json`: `none` = "Circular reference detected" (a container re-entered while it is being encoded, json's
+`markers` check) — the ValueError that the call wrapper / the operator block turn into null -/
+def valueJson? (w : World) : Nat → List Nat → Value → Option String
+  | 0, _, _ => none
+  | fuel+1, path, v =>
     match v with
-    | .null => "null"
-    | .bool b => if b then "true" else "false"
-    | .num q => ratText q
-    | .str s => jsonStr s
-    | .dt ms => jsonStr ("<dt " ++ toString ms ++ ">")
-    | .fn _ => "\"<function>\""
-    | .regex _ => "null"
-    | .arr r => "[" ++ String.intercalate "," (((w.arr? r).getD []).map (valueJson w fuel)) ++ "]"
-    | .obj r => "{" ++ String.intercalate "," ((sortKeys ((w.obj? r).getD [])).map fun kv => jsonStr kv.1 ++ ":" ++ valueJson w fuel kv.2) ++ "}"
+    | .null => some "null"
+    | .bool b => some (if b then "true" else "false")
+    | .num q => some (ratText q)
+    | .str s => some (jsonStr s)
+    | .dt ms => some (jsonStr ("<dt " ++ toString ms ++ ">"))
+    | .fn _ => some "\"<function>\""
+    | .regex _ => some "null"
+    | .arr r =>
+        if path.contains r then none else
+        (((w.arr? r).getD []).mapM (valueJson? w fuel (r :: path))).map fun xs => "[" ++ String.intercalate "," xs ++ "]"
+    | .obj r =>
+        if path.contains r then none else
+        ((sortKeys ((w.obj? r).getD [])).mapM fun kv => (valueJson? w fuel (r :: path) kv.2).map fun s => jsonStr kv.1 ++ ":" ++ s).map
+          fun xs => "{" ++ String.intercalate "," xs ++ "}"
 
-def valueString (w : World) (v : Value) : String :=
+/-- `value_string`; `none` when stringification raises (self-containing container) -/
+def valueString? (w : World) (v : Value) : Option String :=
   match v with
-  | .null => "null"
-  | .bool b => if b then "true" else "false"
-  | .num q => ratText q
-  | .str s => s
-  | .dt ms => "<dt " ++ toString ms ++ ">"
-  | .fn _ => "<function>"
-  | .regex _ => "<regex>"
-  | v => valueJson w (w.heap.length + 2) v
+  | .null => some "null"
+  | .bool b => some (if b then "true" else "false")
+  | .num q => some (ratText q)
+  | .str s => some s
+  | .dt ms => some ("<dt " ++ toString ms ++ ">")
+  | .fn _ => some "<function>"
+  | .regex _ => some "<regex>"
+  | v => valueJson? w (w.heap.length + 2) [] v
+
+def valueString (w : World) (v : Value) : String := (valueString? w v).getD "null"
 
 /-! ## truthiness and comparison -/
 
@@ -117,39 +127,45 @@ def cmpOrd {α} [LT α] [DecidableEq α] [DecidableRel (α := α) (· < ·)] (a 
 def boolNat (b : Bool) : Nat := if b then 1 else 0
 
 mutual
-def valueCompare (w : World) : Nat → Value → Value → Int
-  | 0, _, _ => 0
+/-- `value_compare`; `none` = the recursion never ends (a pair of self-containing containers): RecursionError in Python -/
+def valueCompare (w : World) : Nat → Value → Value → Option Int
+  | 0, _, _ => none
   | fuel+1, a, b =>
     match a, b with
-    | .null, .null => 0
-    | .null, _ => -1
-    | _, .null => 1
-    | .str x, .str y => cmpOrd x y
-    | .bool x, .bool y => cmpOrd (boolNat x) (boolNat y)
-    | .num x, .num y => if x < y then -1 else if x = y then 0 else 1
-    | .dt x, .dt y => cmpOrd x y
+    | .null, .null => some 0
+    | .null, _ => some (-1)
+    | _, .null => some 1
+    | .str x, .str y => some (cmpOrd x y)
+    | .bool x, .bool y => some (cmpOrd (boolNat x) (boolNat y))
+    | .num x, .num y => some (if x < y then -1 else if x = y then 0 else 1)
+    | .dt x, .dt y => some (cmpOrd x y)
     | .arr x, .arr y => compareLists w fuel ((w.arr? x).getD []) ((w.arr? y).getD [])
     | .obj x, .obj y => compareItems w fuel (sortKeys ((w.obj? x).getD [])) (sortKeys ((w.obj? y).getD []))
-    | a, b => cmpOrd (typeName a) (typeName b)
-def compareLists (w : World) : Nat → List Value → List Value → Int
-  | _, [], [] => 0
-  | _, [], _ :: _ => -1
-  | _, _ :: _, [] => 1
+    | a, b => some (cmpOrd (typeName a) (typeName b))
+def compareLists (w : World) : Nat → List Value → List Value → Option Int
+  | _, [], [] => some 0
+  | _, [], _ :: _ => some (-1)
+  | _, _ :: _, [] => some 1
   | fuel, x :: xs, y :: ys =>
-    let c := valueCompare w fuel x y
-    if c != 0 then c else compareLists w fuel xs ys
-def compareItems (w : World) : Nat → List (String × Value) → List (String × Value) → Int
-  | _, [], [] => 0
-  | _, [], _ :: _ => -1
-  | _, _ :: _, [] => 1
+    match valueCompare w fuel x y with
+    | none => none
+    | some c => if c != 0 then some c else compareLists w fuel xs ys
+def compareItems (w : World) : Nat → List (String × Value) → List (String × Value) → Option Int
+  | _, [], [] => some 0
+  | _, [], _ :: _ => some (-1)
+  | _, _ :: _, [] => some 1
   | fuel, x :: xs, y :: ys =>
     let k := cmpOrd x.1 y.1
-    if k != 0 then k else
-      let c := valueCompare w fuel x.2 y.2
-      if c != 0 then c else compareItems w fuel xs ys
+    if k != 0 then some k else
+      match valueCompare w fuel x.2 y.2 with
+      | none => none
+      | some c => if c != 0 then some c else compareItems w fuel xs ys
 end
 
-def compare (w : World) (a b : Value) : Int := valueCompare w (w.heap.length + 2) a b
+/-- a path of more than (cells+1)² container pairs repeats a pair, hence never ends -/
+def compare? (w : World) (a b : Value) : Option Int := valueCompare w ((w.heap.length + 1) * (w.heap.length + 1) + 2) a b
+
+def compare (w : World) (a b : Value) : Int := (compare? w a b).getD 0
 
 /-! ## operators (runtime.py:270-343) -/
 
@@ -168,8 +184,8 @@ def binop (op : BinOp) (a b : Value) (w : World) : Value :=
       match a, b with
       | .num x, .num y => .num (x + y)
       | .str x, .str y => .str (x ++ y)
-      | .str x, y => .str (x ++ valueString w y)
-      | x, .str y => .str (valueString w x ++ y)
+      | .str x, y => match valueString? w y with | some s => .str (x ++ s) | none => .null
+      | x, .str y => match valueString? w x with | some s => .str (s ++ y) | none => .null
       | .dt x, .num y => if y.den == 1 then .dt (x + y.num) else .null      -- fractional ms: outside the driver
       | .num x, .dt y => if x.den == 1 then .dt (y + x.num) else .null
       | _, _ => .null
@@ -188,12 +204,12 @@ def binop (op : BinOp) (a b : Value) (w : World) : Value :=
           else if y.num ≥ 0 then .num (ratPowNat x y.num.toNat)
           else if x = 0 then .null else .num (1 / ratPowNat x y.num.natAbs)
       | _, _ => .null
-  | .eq => .bool (compare w a b == 0)
-  | .ne => .bool (compare w a b != 0)
-  | .le => .bool (compare w a b ≤ 0)
-  | .lt => .bool (compare w a b < 0)
-  | .ge => .bool (compare w a b ≥ 0)
-  | .gt => .bool (compare w a b > 0)
+  | .eq => match compare? w a b with | some c => .bool (c == 0) | none => .null
+  | .ne => match compare? w a b with | some c => .bool (c != 0) | none => .null
+  | .le => match compare? w a b with | some c => .bool (c ≤ 0) | none => .null
+  | .lt => match compare? w a b with | some c => .bool (c < 0) | none => .null
+  | .ge => match compare? w a b with | some c => .bool (c ≥ 0) | none => .null
+  | .gt => match compare? w a b with | some c => .bool (c > 0) | none => .null
   | .and | .or => .null
 
 def neg : Value → Value
@@ -226,13 +242,17 @@ def indexOfFn (f : Value) : List Value → Nat → World → LibTree World
   | [], _, w => ok (.num (-1)) w
   | x :: xs, i, w => .call f [x] w fun r w1 => if truthy r w1 then ok (.num (i : Int)) w1 else indexOfFn f xs (i+1) w1
 
-def indexOfVal (w : World) (v : Value) : List Value → Nat → Int
-  | [], _ => -1
-  | x :: xs, i => if compare w x v == 0 then (i : Int) else indexOfVal w v xs (i+1)
+def indexOfVal (w : World) (v : Value) : List Value → Nat → Option Int
+  | [], _ => some (-1)
+  | x :: xs, i => match compare? w x v with
+    | none => none
+    | some c => if c == 0 then some (i : Int) else indexOfVal w v xs (i+1)
 
 def lib (name : String) (args : List Value) (w : World) : LibTree World :=
   match name, args with
-  | "systemLog", [m] => ok .null { w with log := w.log ++ [valueString w m] }
+  | "systemLog", [m] => match valueString? w m with
+      | some s => ok .null { w with log := w.log ++ [s] }
+      | none => fail .null w
   | "systemLog", [] => ok .null { w with log := w.log ++ ["null"] }
   | "systemLog", _ => fail .null w
   | "arrayNew", xs => let (r, w1) := w.alloc (.arr xs); ok (.arr r) w1
@@ -264,7 +284,7 @@ def lib (name : String) (args : List Value) (w : World) : LibTree World :=
       if xs.length == 0 then fail (.num (-1)) w                       -- index 0 >= len(array)
       else match v with
         | .fn _ => indexOfFn v xs 0 w
-        | _ => ok (.num (indexOfVal w v xs 0)) w
+        | _ => match indexOfVal w v xs 0 with | some r => ok (.num r) w | none => fail .null w
   | "arrayIndexOf", _ => fail (.num (-1)) w
   | "objectNew", kvs =>
       match objNew kvs [] with
@@ -286,7 +306,7 @@ def lib (name : String) (args : List Value) (w : World) : LibTree World :=
       | .fn _ => ok (.fn (.other w.partials.length)) { w with partials := w.partials ++ [(f, a :: as)] }
       | _ => fail .null w
   | "systemPartial", _ => fail .null w
-  | "systemCompare", [a, b] => ok (.num (compare w a b)) w
+  | "systemCompare", [a, b] => match compare? w a b with | some c => ok (.num c) w | none => fail .null w
   | "systemCompare", _ => fail .null w
   | "systemType", [v] => ok (.str (typeName v)) w
   | "systemType", _ => fail .null w
